@@ -1045,6 +1045,28 @@ func genNames(emit func(pkg) bool) {
 	}
 }
 
+// genMemberShapes: structs whose MEMBER names repeat or differ only in case
+// (the signature grammar admits both), alone and nested, used as parameter,
+// return value, signal and property. The other rounds give every struct
+// distinct member names.
+func genMemberShapes(emit func(pkg) bool) {
+	i, s := sigen.A('i'), sigen.A('s')
+	shapes := []*sigen.T{
+		sigen.St("Pair", []string{"v", "v"}, i, s),
+		sigen.St("Triple", []string{"a", "b", "a"}, i, i, i),
+		sigen.St("Twins", []string{"v", "V"}, i, i),
+		sigen.St("Same", []string{"x", "x", "x"}, s, s, s),
+	}
+	for _, st := range shapes {
+		outer := sigen.St("Outer", []string{"first", "second"}, st, i)
+		for _, t := range []*sigen.T{st, sigen.L(st), sigen.M(s, st), sigen.Tu(i, st), outer} {
+			if !emit(one("Svc", method(100, "m", t, t), signal(101, "s", t), property(102, "p", t))) {
+				return
+			}
+		}
+	}
+}
+
 func genActions(emit func(pkg) bool) {
 	pool := rename(
 		sigen.A('i'), sigen.A('s'), sigen.L(sigen.A('m')), sigen.M(sigen.A('s'), sigen.St("X", []string{"a", "b"}, sigen.A('i'), sigen.A('f'))),
@@ -1650,6 +1672,7 @@ func main() {
 
 	runRound("names", fmt.Sprintf("fixed shapes x interface names %q, action names %q (as method, signal, property; alone and between two other methods), parameter name pairs %q, struct names %q x member names %q in 6 type shapes, struct-in-struct for every ordered pair of struct names",
 		ifaceNames, actionNames, paramNames, structNames, fieldNames), genNames)
+	runRound("member-shapes", "structs whose member names repeat (v,v / a,b,a / x,x,x) or differ only in case (v,V), alone, in Vec, Map, Tuple and another struct, as parameter, return value, signal and property", genMemberShapes)
 	runRound("actions", "1..3 methods x 0..3 signals x 0..3 properties (not all zero) x 5 id schemes (100.., small generic ids, sparse incl. 2^32-1, descending, same ids across kinds) x 4 rotations of an 8-type pool (struct shared between actions, struct holding a tuple, object, map of struct)", genActions)
 	runRound("packages", "two interfaces {method, signal} / {method, property} sharing the types (a, b) for every pair over Sig(1,2) with atoms isfm / is (pairs of two atoms excluded)", genPackages)
 	inner, pairAtoms := "ism", "ism"
